@@ -54,13 +54,81 @@ def build(spec):
     return p, x
 
 
+def selection_check(p, step):
+    """the last sentence of the property on a whole MPS model, per channel: summary() reports, and export() materialises, for
+    every decision (and for every output channel of a per-channel weight selector) the arg-max alternative of the CURRENT
+    raw coefficients, and the two agree.  Returns (failures, records for Model.run_selected)."""
+    torch = base._torch()
+    from plinio.methods.mps.nn.qtz import MPSBaseQtz
+    from plinio.methods.mps.nn.module import MPSModule
+    fails, recs = [], []
+    summ = p.summary()
+    try:
+        exp = p.export()
+    except Exception as ex:
+        if base.pytorch_inference_limit(ex):
+            raise
+        import traceback
+        from plinio.methods.mps.nn import MPSConv1d, MPSConv2d
+        from plinio.methods.mps.nn.qtz import MPSPerChannelQtz
+        kinds = sorted({('conv1d' if isinstance(l, MPSConv1d) else 'conv2d') + ('-per-channel' if isinstance(l.w_mps_quantizer, MPSPerChannelQtz) else '-per-layer')
+                        for l in p.seed.modules() if isinstance(l, (MPSConv1d, MPSConv2d))})
+        return [('mps:export-raised:' + '+'.join(kinds), 'export() raised EXC:%s %s' % (type(ex).__name__, ' | '.join(traceback.format_exc().strip().splitlines()[-3:])[:300]), step)], []
+    for lname, layer in p.seed.named_modules():
+        if not isinstance(layer, MPSModule):
+            continue
+        for role in ('in', 'out', 'w'):
+            q = getattr(layer, role + '_mps_quantizer', None)
+            if not isinstance(q, MPSBaseQtz) or (role + '_precision') not in summ.get(lname, {}):
+                continue
+            al = q.alpha.detach()
+            acols = [[frac(v) for v in al[:, j].tolist()] for j in range(al.shape[1])] if al.dim() == 2 else [[frac(v) for v in al.tolist()]]
+            prec = [int(v) for v in q.precision.tolist()]
+            want = [prec[base.argmax_first(c)] for c in acols]
+            got = summ[lname][role + '_precision']
+            gotl = got if isinstance(got, list) else [got]
+            tag = ':sampling-disabled-at-export' if q.sample_alpha.__name__ == 'sample_alpha_none' else ''
+            recs.append({'layer': lname, 'role': role, 'alpha': acols, 'prec': prec, 'summary': gotl})
+            if gotl != want:
+                fails.append(('mps:summary-is-not-argmax-alpha' + tag, '%s.%s_precision: summary() says %r, argmax(alpha) selects %r' % (lname, role, gotl, want), step))
+            try:
+                em = exp.get_submodule(lname)
+                subs = [m for m in em.modules() if getattr(m, role + '_quantizer', None) is not None]
+                if role == 'w' and al.dim() == 2:
+                    # per-channel: every exported group must hold exactly the channels summary() reports at its precision
+                    chan = [None] * len(gotl)
+                    W = layer.weight.detach()
+                    seen = 0
+                    for m in subs:
+                        pr = int(m.w_quantizer.precision)
+                        mw = m.weight.detach()
+                        seen += mw.shape[0]
+                        mask = torch.tensor([v == pr for v in gotl])
+                        if int(mask.sum()) != mw.shape[0] or not torch.equal(W[mask], mw):
+                            # which channels does the group hold?
+                            held = [c for c in range(W.shape[0]) if any(torch.equal(W[c], mw[k]) for k in range(mw.shape[0]))]
+                            fails.append(('mps:export-channels-differ-from-summary' + tag, '%s: the exported %d-bit group holds channels %r, summary() reports %d bit for channels %r (argmax(alpha): %r)' % (
+                                lname, pr, held, pr, [c for c, v in enumerate(gotl) if v == pr], [c for c, v in enumerate(want) if v == pr]), step))
+                    if seen != len(gotl):
+                        fails.append(('mps:export-channels-differ-from-summary' + tag, '%s: exported groups hold %d channels, the layer has %d' % (lname, seen, len(gotl)), step))
+                else:
+                    gotp = sorted({int(getattr(m, role + '_quantizer').precision) for m in subs})
+                    if gotp != sorted(set(gotl)):
+                        fails.append(('mps:summary-differs-from-export' + tag, '%s.%s: summary() says %r, export() materialises %r' % (lname, role, gotl, gotp), step))
+                    if gotp != sorted(set(want)):
+                        fails.append(('mps:export-is-not-argmax-alpha' + tag, '%s.%s: exported %r, argmax(alpha) selects %r' % (lname, role, gotp, want), step))
+            except Exception as ex:
+                fails.append(('mps:export-inspection-raised', 'EXC:%s %s' % (type(ex).__name__, str(ex)[:150]), step))
+    return fails, recs
+
+
 def exec_net(spec):
     torch = base._torch()
     from plinio.methods.mps.nn.qtz import MPSBaseQtz
     from plinio.methods.mps.nn.module import MPSModule
     from plinio.methods.mps.nn import MPSAdd, MPSIdentity
     rng = random.Random(spec['seed'])
-    res = {'spec': spec, 'fails': [], 'sel': {}, 'mism': [], 'cut': None}
+    res = {'spec': spec, 'fails': [], 'sel': {}, 'mism': [], 'cut': None, 'selrecs': []}
     try:
         p, x = build(spec)
         qs = {}                                   # id -> (name, module)
@@ -214,6 +282,18 @@ def exec_net(spec):
                 rec['steps'].append(st)
         for h_ in hooks:
             h_.remove()
+        if res['cut'] is None:
+            # what summary() reports and export() materialises at the end of the sequence, whatever the options in force
+            # (also with sampling disabled and coefficients frozen before the last alpha update / drawn with Gumbel noise)
+            try:
+                import io, contextlib
+                with contextlib.redirect_stderr(io.StringIO()):      # torch.fx prints the traceback of a failing node itself
+                    f_, recs = selection_check(p, len(spec['ops']))
+                res['fails'] += f_
+                res['selrecs'] = recs
+            except Exception as ex:
+                if not base.pytorch_inference_limit(ex):
+                    raise
     except Exception as ex:
         import traceback
         if base.pytorch_inference_limit(ex):
@@ -263,6 +343,23 @@ def specs_net(ctx, keep):
             mk((rng.choice(base.TEMPS), False, False, False), [upd('model', h=True, g=True), fwd(), upd(path, g=False), opt(), fwd(), upd(path, h=False), ('eval',), fwd()], dim=dim, residual=residual)
             mk((rng.choice(base.TEMPS), False, False, False), [upd(path, d=True), ('eval',), fwd(), opt(), upd('model', d=False), fwd(), fwd()], dim=dim, residual=residual)
             mk((rng.choice(base.TEMPS), False, False, False), [upd(path, t=rng.choice(base.TEMPS), h=True), fwd(), upd(path, t=rng.choice(base.TEMPS)), fwd(), upd('model', h=False), fwd()], dim=dim, residual=residual)
+    # sequences that END with sampling disabled (fine-tuning set-up) while the frozen coefficients differ from the current alpha:
+    # Gumbel draw then freeze; freeze then new alpha; also in eval mode; per-channel and per-layer weight search
+    for path in ('model', 'conv_a', 'conv_b', 'linear'):
+        for dim in (1, 2):
+            for pc in (True, True, False):
+                for variant in range(4):
+                    T = rng.choice(base.TEMPS)
+                    if variant == 0:
+                        ctor, ops = (T, rng.random() < 0.5, True, False), [('train',), fwd(), upd(path, d=True)]
+                    elif variant == 1:
+                        ctor, ops = (T, rng.random() < 0.5, True, False), [('train',), fwd(), upd(path, d=True), ('eval',), fwd()]
+                    elif variant == 2:
+                        ctor, ops = (T, False, False, False), [('train',), fwd(), upd(path, d=True), opt(), fwd()]
+                    else:
+                        ctor, ops = (T, rng.random() < 0.5, rng.random() < 0.5, True), [opt(), (rng.choice(['train', 'eval']),), fwd(), opt()]
+                    mk(ctor, ops, dim=dim, residual=rng.random() < 0.3)
+                    out[-1]['per_channel'] = pc
     for _ in range(20 if ctx.quick else 200):
         ops = []
         for _ in range(rng.randint(4, 10)):
